@@ -173,6 +173,18 @@ class Sensor(ABC):
             else:
                 missed_observation_list.append(observation)
 
+            # If doing Serendipitous Observations: only possible once the sensor points at the tasked location
+            if self.calculate_background:
+                visible_observations = [
+                    observation
+                    for tgt in background_agents
+                    if isinstance(
+                        observation := self.attemptObservation(tgt, pointing_sez),
+                        Observation,
+                    )
+                ]
+                obs_list.extend(visible_observations)
+
         else:
             missed_observation_list.append(
                 MissedObservation(
@@ -184,18 +196,6 @@ class Sensor(ABC):
                     reason=Explanation.SLEW_DISTANCE.value,
                 ),
             )
-
-        # If doing Serendipitous Observations
-        if self.calculate_background:
-            visible_observations = [
-                observation
-                for tgt in background_agents
-                if isinstance(
-                    observation := self.attemptObservation(tgt, pointing_sez),
-                    Observation,
-                )
-            ]
-            obs_list.extend(visible_observations)
 
         return obs_list, missed_observation_list, self.boresight, self.time_last_tasked
 
